@@ -8,45 +8,23 @@ From PahoV Require Import Base.Prelude Link.Conn Link.ConnCheck Link.ConnInv.
 (* ---------------------------------------------------------------- hypotheses on operations *)
 Definition is_nil {A} (l : list A) : bool := match l with [] => true | _ => false end.
 
-Definition is_ofail (o : outcome) : bool := match o with OFail => true | _ => false end.
 
-(* D (F-C10d): on_socket_open makes no API call (anything it queues precedes CONNECT) *)
-Definition excl_D (o : op) : bool := forallb is_nil (q_open (o_scr o)).
-(* G (F-C10g): the on_disconnect that announces a written DISCONNECT does not call reconnect() *)
-Definition excl_G (o : op) : bool := queue_noreconn (q_discopen (o_scr o)).
-(* R (F-C10i): on_socket_close / on_socket_unregister_write call neither disconnect() nor reconnect();
+(* D (F-C10d, open): in direct-write mode on_socket_open makes no API call (what it queues is written at
+   once, before CONNECT); in external-loop mode CONNECT is queued ahead of it, only reconnect() is excluded
+   there (the outer reconnect() would queue a second CONNECT on the socket of the inner one) *)
+Definition excl_D (c : cfg) (o : op) : bool :=
+  if c_ext c then queue_noreconn (q_open (o_scr o)) else forallb is_nil (q_open (o_scr o)).
+(* R (F-C10i, open): on_socket_close / on_socket_unregister_write call neither disconnect() nor reconnect();
    on_socket_register_write does not call reconnect() *)
 Definition excl_R (o : op) : bool :=
   forallb (forallb is_pubsub) (q_close (o_scr o)) && forallb (forallb is_pubsub) (q_unregw (o_scr o))
   && queue_noreconn (q_regw (o_scr o)).
-(* C (F-C10j): on_connect does not call reconnect() when the CONNACK it reports refuses the connection *)
-Definition refusing (s : st) (t : topcall) : bool :=
-  match t with
-  | TLoopRead (IConnack rc) => negb (rc =? 0) && negb ((proto s =? 4) && (rc =? 1))
-  | TLoopRead (IConnackDowngrade _) => negb (proto s =? 4)
-  | _ => false
-  end.
-Definition excl_C (s : st) (o : op) : bool :=
-  negb (refusing s (o_call o)) || queue_noreconn (q_connect (o_scr o)).
-(* F (F-C10f): in direct-write mode no send() fails while loop_read() is handling a packet *)
-Definition is_read (t : topcall) : bool := match t with TLoopRead _ => true | _ => false end.
-Definition excl_F (c : cfg) (o : op) : bool :=
-  c_ext c || negb (is_read (o_call o)) || negb (existsb is_ofail (o_sched o)).
-(* E (F-C10e): an accepting CONNACK is not processed after disconnect() was called on that connection *)
-Definition accepting (t : topcall) : bool :=
-  match t with TLoopRead (IConnack rc) => rc =? 0 | _ => false end.
-Definition excl_E (s : st) (o : op) : bool := negb (accepting (o_call o) && disc_state s).
-
-Definition c10_hyp (c : cfg) (s : st) (o : op) : bool :=
-  excl_D o && excl_G o && excl_R o && excl_C s o && excl_F c o && excl_E s o.
-Definition c10_ops_ok (c : cfg) (ops : list op) : bool := hyp_from c (c10_hyp c) (init c) ops.
+Definition c10_hyp (c : cfg) (o : op) : bool := excl_D c o && excl_R o.
+Definition c10_ops_ok (c : cfg) (ops : list op) : bool := forallb (c10_hyp c) ops.
 
 (* the same with a selection of the exclusions, to state that each of them is needed *)
-Definition c10_hyp_sel (d g r cc f e : bool) (c : cfg) (s : st) (o : op) : bool :=
-  (negb d || excl_D o) && (negb g || excl_G o) && (negb r || excl_R o) && (negb cc || excl_C s o)
-  && (negb f || excl_F c o) && (negb e || excl_E s o).
-Definition c10_ops_sel (d g r cc f e : bool) (c : cfg) (ops : list op) : bool :=
-  hyp_from c (c10_hyp_sel d g r cc f e c) (init c) ops.
+Definition c10_hyp_sel (d r : bool) (c : cfg) (o : op) : bool := (negb d || excl_D c o) && (negb r || excl_R o).
+Definition c10_ops_sel (d r : bool) (c : cfg) (ops : list op) : bool := forallb (c10_hyp_sel d r c) ops.
 
 (* ---------------------------------------------------------------- C10 *)
 Definition C10_connected_full : Prop := forall c ops,
